@@ -368,7 +368,10 @@ def one_run(case, k, keep=None):
             class _Iterable(object):
                 def __iter__(self_):
                     return source(case["n"], st, case.get("pairs", False))
-            seq = lena.core.Source(_Iterable(), *els)
+            import warnings
+            with warnings.catch_warnings():
+                warnings.simplefilter("ignore")
+                seq = lena.core.Source(_Iterable(), *els)
             flow = seq()
         elif case.get("via") == "source_iter":
             # the first element is a one-pass iterator OBJECT (a generator object): __call__ must hand it on untouched
@@ -939,7 +942,7 @@ def oracle(case, res):
     # bounded buffering
     cap, cnt = _caps(case["stages"])
     if cap is not None:
-        bound = cap + cnt + 3
+        bound = cap + min(cnt, 2) + 3      # frame locals: measured excess over the documented buffers is at most 4
         if res["max_alive"] > bound:
             return (f"{name}: {res['max_alive']} input values were alive at a pull; the elements document buffers of "
                     f"{cap} values in total (allowing {bound} with frame locals)")
